@@ -46,7 +46,28 @@ def run(p: Project, tier: str) -> Result:
         check_service(p, w, r)
     check_priority_req_store(p, r)
     check_callers(p, r)
+    check_requests_compare_by_identity(p, r)
     return r
+
+
+def check_requests_compare_by_identity(p, r):
+    """R6: SimPy withdraws a request with `queue.remove(request)` and the stores with `reserve_*_queue.remove(event)` / `.index(event)`: the first element
+    that compares EQUAL goes.  Requests and events therefore compare by identity; a __eq__ on the key (priority, time) makes the cancellation of a
+    later request remove an earlier one of the same priority issued in the same instant."""
+    from .common import value_equality_classes, class_family
+    r.rule('C05.R6', 'requests / events compare by identity (no __eq__ in their class family)', 0)
+    n = 0
+    for rel, c, how, line in value_equality_classes(p):
+        fam = class_family(p, rel, c)
+        users = [x for m in p.raw().modules.values() for x in ast.walk(m.tree) if isinstance(x, ast.ClassDef) and c.name in class_family(p, rel, x)]
+        if any(f in ('Get', 'Put', 'Event', 'StoreGet', 'StorePut', 'Request', 'Process', 'Timeout') for u in users for f in class_family(p, rel, u)) or rel.startswith('base/'):
+            n += 1
+            r.fail('C05.R6', f'{rel}::{c.name}::value-equality', f'{c.name} {how}: requests are taken out of the queues with list.remove(), which removes the first '
+                                                                f'EQUAL element - cancelling a later request drops an earlier one with the same key and leaves the '
+                                                                f'cancelled one to be served', src(rel), line)
+    r.ok('C05.R6', 'package::R6-scan', f'{n} request class(es) with value equality', '', 0)
+    canary = ast.parse('class _K:\n    def __eq__(self, o):\n        return self.key == o.key\nclass Req(_K, Get):\n    pass\n')
+    r.canaries['C05.R6'] = any(isinstance(f, ast.FunctionDef) and f.name == '__eq__' for c_ in ast.walk(canary) if isinstance(c_, ast.ClassDef) for f in c_.body)
 
 
 def check_enqueue(p, w, r):
